@@ -21,13 +21,13 @@ LEVEL_TEXT = (
     "any retention growing with >= 0.5 % of the fed octets crosses the bound. The bound is a generic object-graph measure and does not "
     "name attributes. Sampling of patterns and sizes, not proof."
 )
-RUNS = {"quick": 136, "thorough": 816}
+RUNS = {"quick": 296, "thorough": 1416}
 CHUNK = {"quick": 2, "thorough": 2}
 BUDGET_S = {"quick": 120, "thorough": 3000}
 SELFTEST_RUNS = 12
 RULE = (
     "run = (reader, configuration, stream pattern, pattern seed, chunk size, total octets); the deep size of the reader is sampled after "
-    "every k-th read() call (about 200 samples per run). Non-trivial = the stream is at least 16 times the bound constant (>= 1 MiB); "
+    "every k-th read() call (about 200 samples per run). Non-trivial = the stream is at least 8 times the bound constant (>= 512 KiB); "
     "distinct = distinct scenario digest."
 )
 STATE_MEASURE = "distinct (reader, configuration, pattern, chunk size) tuples"
@@ -37,17 +37,26 @@ ASSUMPTIONS = [
     "bound = 64 KiB + 2 x len(last chunk): 'a few maximum-size messages' (8 KiB P1 guard, 2047-octet frames, bytearray over-allocation) with margin; factor 2 covers the copy made when a buffer is re-sliced",
     "objects returned to the caller are not retained by the reader and are not counted",
 ]
-MUST_FIRE = {"quick": ["pattern_all_flags", "pattern_slash_no_lf", "pattern_ident_no_end", "pattern_never_ending_frame", "pattern_open_frame_then_flags", "pattern_open_frame_then_escapes", "pattern_flag_escape_alternating"], "thorough": ["pattern_all_flags", "pattern_slash_no_lf", "pattern_ident_no_end", "pattern_never_ending_frame"]}
+MUST_FIRE = {"quick": ["pattern_all_flags", "pattern_slash_no_lf", "pattern_ident_no_end", "pattern_never_ending_frame", "pattern_open_frame_then_flags", "pattern_open_frame_then_escapes", "pattern_flag_escape_alternating", "pattern_p1_soup", "pattern_hdlc_soup"], "thorough": ["pattern_all_flags", "pattern_slash_no_lf", "pattern_ident_no_end", "pattern_never_ending_frame"]}
 
 CONST = 64 * 1024
 HDLC_PATTERNS = ["all_flags", "flag_junk", "valid_frames", "never_ending_frame", "random", "random_ascii", "escape_flood", "flag_escape_alternating", "open_frame_then_flags", "open_frame_then_escapes", "open_frame_then_flag_escape", "valid_frames_single_flag", "invalid_frames_single_flag", "aborted_frames"]
-P1_PATTERNS = ["ident_no_end", "slash_no_lf", "ident_endless_lines", "valid_readouts", "random", "random_ascii", "ident_lines_repeated", "ident_endless_blank_lines", "ident_endless_lf", "lf_forever", "cr_forever", "ident_endless_bang_less_text"]
+P1_PATTERNS = ["ident_no_end", "slash_no_lf", "ident_endless_lines", "valid_readouts", "random", "random_ascii", "ident_lines_repeated", "ident_endless_blank_lines", "ident_endless_lf", "lf_forever", "cr_forever", "ident_endless_bang_less_text", "ident_then_nonascii_line"]
 CHUNKS = [1, 64, 1024, 65536]
 
 
 def gen(rng, tier, index):
     # systematic over (reader/config x pattern), seeded chunk size and content
     combos = [("hdlc", list(cfg), p) for cfg in hdlc_gen.CONFIGS for p in HDLC_PATTERNS] + [("p1", None, p) for p in P1_PATTERNS]
+    if index >= 2 * len(combos):
+        # token soup: a short seeded cycle of protocol tokens repeated for ever - finds retention paths that
+        # need a particular sequence of events per cycle (e.g. identification line, then a non-ASCII line)
+        if index % 2:
+            reader, cfg, pattern = "p1", None, "p1_soup"
+        else:
+            reader, cfg, pattern = "hdlc", list(hdlc_gen.CONFIGS[(index // 2) % 4]), "hdlc_soup"
+        yield {"reader": reader, "cfg": cfg, "pattern": pattern, "content_seed": rng.getrandbits(32), "chunk": rng.choice([64, 1024, 1024, 8192, rng.randint(2, 3000)]), "total": (1 << 19) if tier == "quick" else (1 << 22)}
+        return
     reader, cfg, pattern = combos[index % len(combos)]
     chunk = rng.choice(CHUNKS + [rng.randint(2, 70000)])
     mib = 1 << 20
@@ -62,6 +71,17 @@ def block(sc) -> bytes:
     r = random.Random(sc["content_seed"])
     p = sc["pattern"]
     stuffing = bool(sc["cfg"] and sc["cfg"][0])
+    if p == "p1_soup":
+        tokens = [b"/ABC5xyz\r\n", b"/KAM5\r\n", b"\r\n", b"\n", b"1-0:1.8.0(000123.456*kWh)\r\n", b"\xff\xfe\r\n", b"1-0:1.7.0(\x80)\r\n", b"!\r\n", b"!1A2B\r\n", b"!zz\r\n",
+                  b"/", b"/junk", b"x" * 40, b"/ABC5!x\r\n", b"\r", b"(", b"0-0:96.1.1(4B41)\n", b"!" , bytes(r.randrange(0x20, 0x7F) for _ in range(30)) + b"\r\n"]
+        cycle = b"".join(r.choice(tokens) for _ in range(r.randint(2, 4)))
+        return cycle * max(1, 8192 // max(1, len(cycle)))
+    if p == "hdlc_soup":
+        good = hdlc_gen.build(hdlc_gen.frame_fields(r, small=True))
+        tokens = [b"\x7e", b"\x7e\x7e", b"\x7d", b"\x7d\x7e", b"\x7d\x5e", b"\xa0\x08\x03\x21\x13", b"\xa7\xff\x03\x21\x13\x12\x34", b"\x01\x02", good, hdlc_ref.stuff(good), good[:7],
+                  b"\x00" * 30, r.randbytes(12).replace(b"\x7e", b"\x11"), b"\xa0\x0a\x02\x04\x06", b"\x7e" + good + b"\x7e", b"\x7e\x01\x02"]
+        cycle = b"".join(r.choice(tokens) for _ in range(r.randint(2, 4)))
+        return cycle * max(1, 8192 // max(1, len(cycle)))
     if p == "all_flags":
         return b"\x7e" * 4096
     if p == "flag_junk":
@@ -106,6 +126,8 @@ def block(sc) -> bytes:
         return b"/ABC5xyz\r\n\r\n1-0:1.8.0(000123.456*kWh)\r\n" * 100
     if p == "ident_lines_repeated":
         return b"/ABC5xyz\r\n" * 400
+    if p == "ident_then_nonascii_line":
+        return b"/ABC5xyz\r\n\xff\xfe\x80\r\n" * 400
     if p == "ident_endless_blank_lines":
         return b"\r\n" * 4096
     if p == "ident_endless_lf":
@@ -188,7 +210,7 @@ def execute(sc):
         "violations": viol,
         "void": void,
         "digest": prng.digest([sizes[:5], peak, fed, [v["sig"] for v in viol]]),
-        "nontrivial": total >= 16 * CONST,
+        "nontrivial": total >= 8 * CONST,
         "key": prng.digest(sc),
         "faults": {f"pattern_{sc['pattern']}": 1},
         "probes": {f"pattern_{sc['pattern']}": 1, f"chunk_{chunk if chunk in CHUNKS else 'other'}": 1},
